@@ -77,6 +77,101 @@ type absEnv struct {
 	stopInstr func(ssa.Instruction) bool
 	// abstract values stored into struct fields (by field object)
 	fieldStores map[*types.Var]aVal
+	// optional: the abstract value of element k of the array stored at addr (used when an array is handed to a helper)
+	elemSeed func(addr ssa.Value, k int64) (aVal, bool)
+	depth    int
+}
+
+// evalCallee evaluates a call of a loop-free repo function (a predicate extracted from the code under evaluation) on
+// the abstract values of its arguments: parameters are bound to the arguments, elements of an array parameter are
+// taken from the caller's elemSeed for the argument's address.
+func (e *absEnv) evalCallee(call *ssa.Call) (aVal, bool) {
+	h := staticFn(&call.Call)
+	if h == nil || h.Blocks == nil || e.depth >= 2 || !strings.HasPrefix(fnPkgPath(h), pkgLungo) || h.Signature.Results().Len() != 1 {
+		return aVal{}, false
+	}
+	paramIdx := func(p *ssa.Parameter) int {
+		for i, q := range h.Params {
+			if q == p {
+				return i
+			}
+		}
+		return -1
+	}
+	child := &absEnv{vals: map[ssa.Value]aVal{}, ord: e.ord, nan0: e.nan0, nan1: e.nan1, fieldStores: map[*types.Var]aVal{}, elemSeed: e.elemSeed, depth: e.depth + 1}
+	elemOf := func(base ssa.Value, k int64) (aVal, bool) {
+		p, ok := stripValue(base).(*ssa.Parameter)
+		if !ok || e.elemSeed == nil {
+			return aVal{}, false
+		}
+		i := paramIdx(p)
+		if i < 0 || i >= len(call.Call.Args) {
+			return aVal{}, false
+		}
+		if ld, ok := call.Call.Args[i].(*ssa.UnOp); ok && ld.Op == token.MUL {
+			return e.elemSeed(ld.X, k)
+		}
+		return aVal{}, false
+	}
+	child.seed = func(v ssa.Value) (aVal, bool) {
+		switch x := v.(type) {
+		case *ssa.Parameter:
+			if i := paramIdx(x); i >= 0 && i < len(call.Call.Args) {
+				if a := e.get(call.Call.Args[i]); a.k != aUnknown {
+					return a, true
+				}
+			}
+		case *ssa.Index:
+			if k, ok := constInt(x.Index); ok {
+				return elemOf(x.X, k)
+			}
+		case *ssa.UnOp:
+			if ia, ok := x.X.(*ssa.IndexAddr); ok && x.Op == token.MUL {
+				if k, ok := constInt(ia.Index); ok {
+					// the parameter's own cell
+					if al, ok := ia.X.(*ssa.Alloc); ok {
+						if whole, field, ok := structCellStoresAny(al); ok && len(whole) == 1 && len(field) == 0 {
+							return elemOf(whole[0].Val, k)
+						}
+					}
+				}
+			}
+		}
+		return aVal{}, false
+	}
+	rets, _, ok := child.run(h.Blocks[0], nil, nil, 0)
+	if !ok || len(rets) != 1 {
+		return aVal{}, false
+	}
+	return rets[0], true
+}
+
+// structCellStoresAny: the whole stores into a local cell that is otherwise only read (directly or element-wise).
+func structCellStoresAny(a *ssa.Alloc) (whole []*ssa.Store, elem []*ssa.Store, ok bool) {
+	if a.Referrers() == nil {
+		return nil, nil, false
+	}
+	for _, ref := range *a.Referrers() {
+		switch r := ref.(type) {
+		case *ssa.Store:
+			if r.Addr != ssa.Value(a) {
+				return nil, nil, false
+			}
+			whole = append(whole, r)
+		case *ssa.UnOp, *ssa.DebugRef:
+		case *ssa.IndexAddr, *ssa.FieldAddr:
+			if rr := r.(ssa.Value).Referrers(); rr != nil {
+				for _, u := range *rr {
+					if st, isStore := u.(*ssa.Store); isStore {
+						elem = append(elem, st)
+					}
+				}
+			}
+		default:
+			return nil, nil, false
+		}
+	}
+	return whole, elem, true
 }
 
 func (e *absEnv) get(v ssa.Value) aVal {
@@ -240,6 +335,18 @@ func (e *absEnv) run(start, from, stopAt *ssa.BasicBlock, startIdx int) (rets []
 					a := e.get(x.Call.Args[0])
 					if a.k == aOrd {
 						e.vals[x] = aVal{k: aBool, b: (a.i == 0 && e.nan0) || (a.i == 1 && e.nan1)}
+					}
+				}
+				// a predicate of the repo called on values we know: evaluate it
+				if _, known := e.vals[x]; !known {
+					seeded := false
+					if e.seed != nil {
+						_, seeded = e.seed(x)
+					}
+					if !seeded {
+						if v, ok := e.evalCallee(x); ok {
+							e.vals[x] = v
+						}
 					}
 				}
 				// everything else: value comes from the seed (or stays unknown)
@@ -1220,6 +1327,15 @@ func ruleSem6(c *Ctx, r *Reporter) {
 							continue // a collection scope without database does not exist
 						}
 						env := &absEnv{vals: map[ssa.Value]aVal{}, fieldStores: map[*types.Var]aVal{}}
+						env.elemSeed = func(addr ssa.Value, k int64) (aVal, bool) {
+							if fa, ok := addr.(*ssa.FieldAddr); ok && structFieldOf(fa) == handleF {
+								if k == 0 {
+									return aVal{k: aStr, s: h0}, true
+								}
+								return aVal{k: aStr, s: h1}, true
+							}
+							return aVal{}, false
+						}
 						env.seed = func(v ssa.Value) (aVal, bool) {
 							if k, ok := isHandleLoad(v); ok {
 								if k == 0 {
